@@ -438,7 +438,20 @@ pub trait AsView: Layout {
             .copied()
             .enumerate()
             .filter_map(|(dim, item)| match item {
-                SliceItem::Index(_) => None,
+                SliceItem::Index(index) => {
+                    // An out-of-range index selects nothing. Reject it here, as
+                    // otherwise it goes unnoticed if the slice is empty anyway.
+                    let size = self.size(dim) as isize;
+                    let pos = if index >= 0 { index } else { index + size };
+                    assert!(
+                        pos >= 0 && pos < size,
+                        "slice index {} is out of bounds for axis {} with size {}",
+                        index,
+                        dim,
+                        size
+                    );
+                    None
+                }
                 SliceItem::Range(range) => Some(range.index_range(self.size(dim)).steps()),
             })
             // Dimensions without a slice item are retained in full.
